@@ -370,6 +370,21 @@ func c19Invalid(c *fw.Ctx, i int) {
 	v := c19Build(r, n, mask, r.Bool())
 	lv := c19ToLib(v)
 	kind := ""
+	if !full && r.Chance(1, 12) {
+		// no active layer at all: the stream count and the own stream id are still checked
+		lv.ActiveSpatialLayer = nil
+		lv.HasResolutionAndFramerate = false
+		kind = "no-layers/"
+		switch r.Intn(3) {
+		case 0:
+			lv.RTPStreamID, kind = lv.RTPStreamCount+r.Pick(0, 1, 4, 256), kind+"rid-ge-count"
+		case 1:
+			lv.RTPStreamID, kind = -1, kind+"rid-negative"
+		default:
+			lv.RTPStreamCount, kind = r.Pick(0, 5, -1, 260), kind+"count-out-of-range"
+		}
+		i = -1
+	}
 	if full && r.Bool() {
 		// a seventeenth entry that is a duplicate, has no bitrates, or names a slot that does not exist
 		extra := lv.ActiveSpatialLayer[r.Intn(len(lv.ActiveSpatialLayer))]
